@@ -240,3 +240,93 @@ def plan_C20(tier, seed):
                 shards=shards, require={"c20.trace_entries_compared": 50000, "c20.thread_switches_observed": 2000, "c20.race_rounds": 1000, "c20.hand_over_runs": 20},
                 assumptions=ASSUME_COMMON + ["twin runs use a deterministic-placement allocator mode (chunk base = align mod 8192) so that placement relative to the chunk base depends only on the arena's own history",
                                              "race detectors only see the schedules that occurred; TSan runs are repeated with 2-8 threads, Miri with several scheduler seeds"])
+
+
+def coll_shards(seed, tier, workload, iters_q, iters_t, ops, extra=None, miri_q=1, miri_t=10, asan_t=4, miri_ops=40, miriflags="-Zmiri-ignore-leaks"):
+    extra = extra or {}
+    q = tier == "quick"
+    out = []
+    n = 0
+    for rep in range(2 if q else 16):
+        for eng in ("debug", "release"):
+            out.append(sh(eng, workload, seed, n, timeout=900, iters=(iters_q if q else iters_t), ops=ops, **extra))
+            n += 1
+    for i in range(miri_q if q else miri_t):
+        out.append(sh("miri", workload, seed, 1000 + i, timeout=1500, iters=(1 if q else 3), ops=miri_ops, miriflags=miriflags, **extra))
+    if not q:
+        for i in range(asan_t):
+            out.append(sh("asan", workload, seed, 2000 + i, timeout=900, iters=iters_t // 4, ops=ops, instrumented=1, **extra))
+    return out
+
+
+ASSUME_COLL = [
+    "std::vec::Vec / std::string::String / std::boxed::Box of the installed toolchain (rustc 1.95) are the reference model",
+    "requests that std would answer by aborting (real allocation failure) are not generated; lying size_hints are not used; panic messages, drop order and exact capacities are not compared",
+    "verdict is about the programs generated; op kinds and index classes actually executed are counted in the evidence",
+]
+
+
+def plan_C13(tier, seed):
+    return dict(level="exploration",
+                rule=("one evaluation = one random program (150 ops) over 5 bumpalo Vecs (u8,u64,[u8;24],(),Tracked) sharing one arena with a String, Boxes and raw canaries, each Vec mirrored by a std Vec and compared after every op "
+                      "(outcome class, returned values, contents, length, capacity promises); distinct = distinct op-sequence hashes"),
+                shards=coll_shards(seed, tier, "vecdiff", 400, 3000, 150),
+                require={"c13.ops": 50000, "c13.ops_panicking_on_both_sides": 3000, "c13.neighbour_checks": 5000, "vop.drain": 1000, "vop.splice": 1000, "vop.drain_filter": 500, "vop.into_iter": 500},
+                assumptions=ASSUME_COLL)
+
+
+def plan_C15(tier, seed):
+    return dict(level="exploration",
+                rule=("one evaluation = one random program (150 ops) over bumpalo Vecs of drop-tracked elements (unique ids), mirrored by std Vecs: after every op the multiset of element keys dropped by bumpalo must equal std's, "
+                      "no id is dropped twice, every reachable element is live, leak-by-design conversions and arena drop run no destructor, and the still-live sets agree at the end; plus zero-sized-element drop counts and Box ownership transfers; distinct = distinct op-sequence hashes"),
+                shards=coll_shards(seed, tier, "vecdiff", 400, 3000, 150, extra={"tracked": 1}) + coll_shards(seed, tier, "boxdiff", 300, 3000, 60, miri_q=1, miri_t=4, asan_t=2),
+                require={"c15.ops_drop_sets_compared": 30000, "c15.drops_observed": 30000, "c15.zst_cases": 60, "c15.box_drop_checks": 2000},
+                assumptions=ASSUME_COLL)
+
+
+def plan_C16(tier, seed):
+    q = tier == "quick"
+    shards = []
+    n = 0
+    for rep in range(1 if q else 8):
+        for eng in ("debug", "release"):
+            shards.append(sh(eng, "c16", seed + rep, n, timeout=900, iters=(3 if q else 25)))
+            n += 1
+    for i in range(2 if q else 16):
+        shards.append(sh("miri", "c16", seed, i, timeout=1500, iters=1, stride=(40 if q else 16), miriflags="-Zmiri-ignore-leaks"))
+    if not q:
+        for i in range(3):
+            shards.append(sh("asan", "c16", seed + i, 50 + i, timeout=900, iters=6, instrumented=1))
+    return dict(level="fault_enumeration",
+                rule=("one evaluation = one (operation scenario, input, panic point k, follow-up) tuple: for each of 38 callback-taking scenarios and each input the fault-free run counts the n callback invocations, "
+                      "then every k in 1..=n is run with the k-th invocation panicking, under three follow-ups (continue using, drop, consume); distinct = distinct such tuples"),
+                shards=shards, require={"c16.panics_injected": 5000, "c16.callback_points_enumerated": 1500, "sc.string-retain": 7, "sc.drain_filter-consume-all": 6, "sc.splice-exact-hint": 6},
+                assumptions=ASSUME_COLL + ["the fuse fires once per run, so a second panic during unwinding (abort) can only be raised by the code under test; a shard dying with SIGABRT is reported as a violation"])
+
+
+def plan_C14(tier, seed):
+    q = tier == "quick"
+    shards = coll_shards(seed, tier, "strdiff", 600, 4000, 120, miri_q=1, miri_t=8, asan_t=3, miri_ops=50, miriflags="")
+    # decoders: exhaustive up to 3 bytes in quick (1.8 s), up to 4 bytes in thorough (16 parts)
+    if q:
+        shards.append(sh("release", "strdiff", seed, 900, decoders=1, exh=3))
+        shards.append(sh("debug", "strdiff", seed, 901, decoders=1, exh=2))
+    else:
+        for part in range(16):
+            shards.append(sh("release", "strdiff", seed, 900 + part, timeout=3000, decoders=1, exh=4, part=part, parts=16, random=20000))
+        shards.append(sh("debug", "strdiff", seed, 950, timeout=900, decoders=1, exh=3))
+    shards.append(sh("miri", "strdiff", seed, 960, timeout=1500, decoders=1, exh=1, random=(20 if q else 100), parts=64, part=seed % 64))
+    return dict(level="exploration",
+                rule=("one evaluation = one random String program (120 ops over 1-4 byte characters with every byte index 0..=len+2 and all range forms, mirrored by std::string::String, UTF-8 validity checked after every op including panicking ones) "
+                      "or one decoder input (from_utf8 / from_utf8_lossy_in / from_utf16_in compared with std): all byte strings up to length 3 (quick) or 4 (thorough) exhaustively, structured lead/continuation/truncation grid, random corrupted text, UTF-16 boundary classes; distinct = distinct op-sequence hashes"),
+                shards=shards, require={"c14.ops": 50000, "c14.ops_panicking_on_both_sides": 10000, "c14.decoder_exhaustive_inputs": 16000000, "c14.decoder_structured_inputs": 200000, "sop.replace_range": 3000, "sop.drain": 3000, "sop.insert": 3000},
+                assumptions=ASSUME_COLL)
+
+
+def plan_C17(tier, seed):
+    return dict(level="exploration",
+                rule=("one evaluation = one random program of 60 Box scenarios (16 kinds: comparison/hash/fmt against std::boxed::Box, drop ledger around drop/into_inner/into_raw/from_raw/leak/pin_in/downcast hit+miss, "
+                      "array<->slice<->Vec conversions, boxed iterators/futures/hashers, arena accounting and allocator events around every drop); distinct = distinct scenario-sequence hashes"),
+                shards=coll_shards(seed, tier, "boxdiff", 400, 4000, 60, miri_q=1, miri_t=6, asan_t=3, miri_ops=30, miriflags=""),
+                require={"c17.monitored_drops": 10000, "c15.box_drop_checks": 10000},
+                assumptions=ASSUME_COLL)
